@@ -319,6 +319,26 @@ check('C15', 'model_checking',
       'sampled layouts through the real Analysis class, judged by TLC',
       'tlc-data')
 
+check('C20', 'model_checking',
+      'Gui.tla models the client menu of main.js (change code with the '
+      'updateMenu fall-backs, rotated / coprime toggles, L, deformations, '
+      'decoder, error model) over tables taken from the library; TLC '
+      'explores all reachable menu states (37k quick), proves the menu never '
+      'holds a choice the backend does not offer and emits every request the '
+      'menu can send inside the supported size family; each is posted to the '
+      'Flask test client and TLC (C20_Data.tla) compares the response with '
+      'objects built from the library: one description per qubit/stabilizer '
+      'equal to the library\'s representation in index order and complete, '
+      'H and logicals identical, decoder/deformation names exact, decode '
+      'equal to the library decoder, new-errors supported on the model\'s '
+      'Paulis.',
+      'DESIGN.md 4/C20',
+      'Trusted: TLC; main.js is transcribed by hand (no JS engine). '
+      'Recorded finding: rotated picture of the three 2-D colour codes.',
+      'TLA+ menu state machine model-checked + spec->code replay of every '
+      'emitted request through the Flask test client, judged by TLC',
+      'tlc-data')
+
 
 def build():
     checks = []
